@@ -33,10 +33,14 @@ def simple(prop, level, rule, assumptions, batches=(8, 16), timeout=(600, 3000),
         _src, vh = build_vh(work)
         nb = batches[0] if tier == "quick" else batches[1]
         to = timeout[0] if tier == "quick" else timeout[1]
+        doc = None
         if replay and p in EXACT_REPLAY:
-            case = os.path.join(work, "replay-case.json")
             with open(replay) as f:
                 doc = json.load(f)
+            if doc.get("case", doc) is None:
+                doc = None  # a violation without a case of its own (concurrent layers): the deterministic case list is re-run
+        if doc is not None:
+            case = os.path.join(work, "replay-case.json")
             with open(case, "w") as f:
                 json.dump(doc.get("case", doc), f)
             merged = vcheck.run_vh_batches(vh, p, tier, 1, work, to, extra_args=["--replay", case])
@@ -631,7 +635,9 @@ def c03_l2_scenario(binary, work, idx, rng, merged):
     case = {"orig_mode": orig_mode, "orig_pwm": orig_pwm, "has_enable": has_enable, "fans": nfans, "mode_fault": mode_fault, "pwm_fault": pwm_fault,
             "signals": [int(s) for s in sigs], "gaps_s": gaps, "first_signal_phase": phase}
     cls = "mode%d:enable=%s:modeFault=%s:pwmFault=%s:signals=%d:phase=%s" % (orig_mode, has_enable, mode_fault, pwm_fault, nsig, phase)
-    d = l2.Daemon(binary, sd, l2_basic_config(sd, fans_yaml), tree.root, driver={"rules": rules, "plants": plants}, timescale=10)
+    desktop = rng.choice(l2.DESKTOPS)
+    case["desktop_session"] = desktop
+    d = l2.Daemon(binary, sd, l2_basic_config(sd, fans_yaml), tree.root, driver={"rules": rules, "plants": plants}, timescale=10, desktop=desktop)
     try:
         marker, delay = {
             "startup-wait": (r"Gathering sensor data", 0.05),
@@ -1144,7 +1150,9 @@ sensors:
     rules = [rule, {"path": pwm1, "op": "w", "action": "quant", "val": 5}]
     case = {"sensor": sensor_kind, "curve": curve_kind, "fault": {"component": comp, "kind": kind, "from_operation": start, "length": length or "for good"}, "orig_mode": orig_mode}
     cls = "sensor=%s:curve=%s:%s/%s/%s" % (sensor_kind, curve_kind, comp, kind, "permanent" if not length else "window")
-    d = l2.Daemon(binary, sd, cfg, tree.root, driver={"rules": rules, "plants": []}, timescale=10)
+    desktop = rng.choice(l2.DESKTOPS)
+    case["desktop_session"] = desktop
+    d = l2.Daemon(binary, sd, cfg, tree.root, driver={"rules": rules, "plants": []}, timescale=10, desktop=desktop)
     try:
         if not d.wait_for(r"(?s)(Starting controller loop.*){2}", 120):
             if d.p.poll() is None:
